@@ -29,10 +29,18 @@ MANIFEST = dict(
          "be those of the ranks binned by nperbin, int((n-1)/nperbin)+1 of them; the reverse indices must have the engine's layout for the counts that "
          "are stored (first offset nbin+1, offset behind bin k = nbin+1+cumulated count, index area = the limited sort index), low/high must be the "
          "binned variable at the first / last rank of each bin; the last two counts are added and one bin dropped exactly in the case mergelast on, "
-         "last bin short, several bins.  Finally the options are followed by data dependence from histogram() to Binner.dohist() and on to the "
+         "last bin short, several bins.  Vectors whose parts are read or written separately (bin edges built from slices of one another, closed by an "
+         "element store, appended or concatenated; the reverse indices in the method that merges the last bin, a view of themselves shifted by slice "
+         "copies, numpy.delete, in-place arithmetic on a slice) carry explicit element positions: a slice is a view of the same storage, every store "
+         "overlays the positions it covers with the value its right-hand side had at that moment, and the element at a generic position (first / "
+         "middle / last bin; a remaining offset, the offset behind the merged bin, a place in the index area) is read back by comparing the position "
+         "with the stored regions under the known extents.  So every bin edge, the last one included, must be the definition at its own position, and the "
+         "merged reverse indices must be the engine's layout for one bin fewer (one element fewer, offsets REV[k]-1, last offset the old end REV[nbin]-1, "
+         "index area unchanged one place earlier).  Finally the options are followed by data dependence from histogram() to Binner.dohist() and on to the "
          "methods of Binner: a parameter fed a plain copy of an option must be fed the option of its own name, and no public option is cut off.",
-    note="Not decided: numerical equality, the index arithmetic of the last-bin merge on the reverse indices. Trusted: numpy "
-         "reductions, sympy normaliser, the histogram engine's reverse-index layout (offsets 0..nbin, then the members bin by bin); in the direct "
+    note="Not decided: numerical equality. Trusted: numpy "
+         "reductions, slice-view aliasing and copy-on-overlap of numpy slice assignment, numpy.delete / append / concatenate, sympy normaliser, the histogram "
+         "engine's reverse-index layout (offsets 0..nbin, then the members bin by bin, at least one datum); in the direct "
          "form numpy.bincount / cumsum / nonzero and that the bin number int(r/nperbin) does not decrease with the rank r (bins hold consecutive ranks).",
     technique="static analysis: abstract interpretation over a symbolic term domain (reductions as uninterpreted functionals, arrays as guarded stores), "
               "special-case consistency by term rewriting, path conditions decided per scenario",
@@ -158,12 +166,14 @@ class Arr:
         self.init = init
         self.n = n
         self.stores = []
+        self.raw = []             # the stores as made: (path condition, index, value)
         self.tainted = False
         self.open_last = None     # set when the initial value of the LAST bin is not the generic one (text says why)
 
     def copy(self):
         a = Arr(self.init, self.n)
         a.stores = list(self.stores)
+        a.raw = list(self.raw)
         a.tainted = self.tainted
         a.open_last = self.open_last
         return a
@@ -171,6 +181,7 @@ class Arr:
     def map(self, fn):
         a = Arr(fn(self.init), self.n)
         a.stores = [(c, k, fn(v)) for c, k, v in self.stores]
+        a.raw = [(c, i, fn(v) if isinstance(v, sp.Basic) and _vec_len(v) is None else symx.Opaque("vector arithmetic")) for c, i, v in self.raw]
         a.tainted = self.tainted
         a.open_last = self.open_last
         return a
@@ -199,6 +210,7 @@ class Arr:
             kind = "gen"
         else:
             kind = "other"
+        self.raw.append((cond, idx, v))
         self.stores.append((cond, kind, v))
 
     def read(self, idx, cur):
@@ -299,6 +311,242 @@ class Vec:
             self.buf.cells[r] = v if cond == sp.true else sp.Piecewise((v, cond), (self.buf.cells.get(r, AT(self.buf.sym, r)), True))
         else:
             self.buf.other.append((idx, v, cond))
+
+
+# ---- vectors with explicit element positions -------------------------------------------------------------------------------------
+# (the bin edges of calc_stats and the reverse indices in the last-bin merge: element j of the vector is a term, slices are views that
+# share the storage, element / slice stores overlay it; what element j holds is decided by comparing j with the stored regions)
+ND = sp.Symbol("NDATA_IN_RANGE", positive=True, integer=True)      # number of data in the index area of the reverse indices
+KH = sp.Symbol("kh", integer=True, nonnegative=True)               # a generic position
+PA = sp.Symbol("pa", integer=True, nonnegative=True)
+GAPV, GAPW = sp.symbols("gapv gapw", integer=True, nonnegative=True)
+UNINIT = sp.Symbol("UNINITIALISED")
+
+
+def _facts_sgn(e, facts):
+    """+1: e >= 0 for certain, -1: e < 0 for certain, None: not decided.  facts: ordered substitutions that state what is known
+    about the extents and the generic position (symbols with sign assumptions)"""
+    try:
+        e = _nidx(sp.sympify(e))
+        for a, b in facts or ():
+            e = e.subs(a, b)
+        e = sp.expand(e)
+    except Exception:
+        return None
+    if e.is_nonnegative:
+        return 1
+    if e.is_negative:
+        return -1
+    return None
+
+
+def _vec_len(t):
+    """number of elements of a term that stands for a whole vector element by element (it is built from one np.arange(n))"""
+    if not isinstance(t, sp.Basic):
+        return None
+    ars = {a for a in t.atoms(sp.core.function.AppliedUndef) if a.func == ARANGE}
+    if len(ars) == 1:
+        a = next(iter(ars))
+        if len(a.args) == 1 and not t.has(sp.Piecewise):
+            return a.args[0]
+    return None
+
+
+class _SBuf:
+    def __init__(self, base):
+        self.base = base          # (position, facts) -> term: the content before any store
+        self.stores = []          # (a, b, source): positions a .. b-1 were overwritten, source(offset from a, facts) -> term
+        self.tainted = None
+
+
+class SV:
+    """a vector whose element j is a term.  A slice is a view (same storage, offset, extent); a snapshot (`upto`) sees only the
+    stores made before it was taken: the value of an expression at the time it was evaluated."""
+
+    def __init__(self, n, base=None, buf=None, off=0, upto=None):
+        self.buf = buf if buf is not None else _SBuf(base)
+        self.n = sp.sympify(n)
+        self.off = sp.sympify(off)
+        self.upto = upto
+
+    def __repr__(self):
+        return "SV(n=%s, off=%s, %d stores)" % (self.n, self.off, len(self.buf.stores))
+
+    @property
+    def tainted(self):
+        return self.buf.tainted
+
+    @tainted.setter
+    def tainted(self, v):
+        self.buf.tainted = self.buf.tainted or (v if isinstance(v, str) else "statements outside the term domain touch the vector")
+
+    @staticmethod
+    def const(n, v):
+        return SV(n, base=lambda j, f: v)
+
+    @staticmethod
+    def from_term(t, n):
+        ar = ARANGE(n)
+        return SV(n, base=lambda j, f: t.subs(ar, j))
+
+    def snap(self):
+        return SV(self.n, buf=self.buf, off=self.off, upto=len(self.buf.stores) if self.upto is None else self.upto)
+
+    def copy(self):
+        s = self.snap()
+        return SV(self.n, base=lambda j, f: s.at(j, f))
+
+    def _abs(self, j):
+        j = _nidx(sp.sympify(j))
+        if j.is_number and j.is_negative:
+            j = self.n + j
+        return sp.expand(j)
+
+    def _bounds(self, idx):
+        if idx.step is not None:
+            return None
+        return (sp.Integer(0) if idx.start is None else self._abs(idx.start)), (self.n if idx.stop is None else self._abs(idx.stop))
+
+    def view(self, idx):
+        b = self._bounds(idx)
+        if b is None:
+            return symx.Opaque("strided slice of a vector")
+        return SV(sp.expand(b[1] - b[0]), buf=self.buf, off=sp.expand(self.off + b[0]), upto=self.upto)
+
+    def at(self, j, facts):
+        """the term element j holds (negative numbers count from the end)"""
+        if self.buf.tainted:
+            raise Undecided(self.buf.tainted)
+        j = sp.expand(self.off + self._abs(j))
+        stores = self.buf.stores if self.upto is None else self.buf.stores[:self.upto]
+        for a, b, src in reversed(stores):
+            lo, hi = _facts_sgn(j - a, facts), _facts_sgn(b - 1 - j, facts)
+            if lo == 1 and hi == 1:
+                return src(sp.expand(j - a), facts)
+            if lo == -1 or hi == -1:
+                continue
+            raise Undecided("whether element %s lies in the stored region %s:%s" % (j, a, b))
+        return self.buf.base(j, facts)
+
+    @staticmethod
+    def source(v):
+        """(source function, number of elements or None for a scalar) of a value that is stored / combined"""
+        if isinstance(v, SV):
+            s = v.snap()
+            return (lambda d, f: s.at(d, f)), s.n
+        if isinstance(v, (int, float)) and not isinstance(v, bool):
+            v = sp.sympify(v)
+        if isinstance(v, sp.Basic) and symx._is_expr(v):
+            n = _vec_len(v)
+            if n is not None:
+                s = SV.from_term(v, n)
+                return (lambda d, f: s.at(d, f)), n
+            if not v.has(ARANGE):
+                return (lambda d, f: v), None
+
+        def unknown(d, f):
+            raise Undecided("a value the analysis does not follow was stored (%r)" % (v,))
+        return unknown, None
+
+    def store(self, idx, v, cond, env):
+        facts = env.bs.vfacts
+        if self.upto is not None:
+            self.tainted = "store into a value"
+            return
+        if cond != sp.true:
+            c = cond
+            try:
+                for a, b in facts or ():
+                    c = c.subs(a, b)
+            except Exception:
+                pass
+            if _decide(c, {}) is not True:
+                self.tainted = "store under the condition %s, which the analysis does not decide" % (cond,)
+                return
+        src, n = self.source(v)
+        if isinstance(idx, slice):
+            b = self._bounds(idx)
+            if b is None:
+                self.tainted = "store into a strided slice"
+                return
+            if n is not None and not _eq(sp.expand(b[1] - b[0]), n):
+                self.tainted = "%s elements are stored into %s places" % (n, sp.expand(b[1] - b[0]))
+                return
+            self.buf.stores.append((sp.expand(self.off + b[0]), sp.expand(self.off + b[1]), src))
+        elif symx._is_expr(idx):
+            if isinstance(idx, sp.Basic) and idx == GEN:
+                # one store per iteration of the loop over the bins: element k gets the value with the loop variable at k
+                if n is not None or not isinstance(v, sp.Basic):
+                    self.tainted = "a vector stored per bin"
+                    return
+                self.buf.stores.append((self.off, sp.expand(self.off + self.n), lambda d, f: _at_norm(v).subs(GEN, d)))
+                return
+            if n is not None:
+                self.tainted = "a vector stored into one element"
+                return
+            a = sp.expand(self.off + self._abs(idx))
+            self.buf.stores.append((a, a + 1, src))
+        else:
+            self.tainted = "store at an index the analysis does not follow (%r)" % (idx,)
+
+
+def _at_norm(e):
+    """element c of a term that stands for a vector element by element is the term at position c"""
+    def pick(t):
+        n = _vec_len(t.args[0])
+        c = t.args[1]
+        if c.is_number and c.is_negative:
+            c = n + c
+        return t.args[0].subs(ARANGE(n), c)
+    return e.replace(lambda t: t.func == AT and len(t.args) == 2 and _vec_len(t.args[0]) is not None and not t.args[0].func == ARANGE, pick)
+
+
+def _sv_delete(x, idx):
+    """numpy.delete(x, idx) for one position: the elements in front stay, those behind move down by one"""
+    s = x.snap()
+    a = s._abs(idx)
+
+    def base(j, f):
+        if _facts_sgn(a - 1 - j, f) == 1:
+            return s.at(j, f)
+        if _facts_sgn(j - a, f) == 1:
+            return s.at(j + 1, f)
+        raise Undecided("whether element %s lies in front of the deleted position %s" % (j, a))
+    return SV(sp.expand(s.n - 1), base=base)
+
+
+def _sv_concat(pieces):
+    """numpy.concatenate / append of vectors, sequences of scalars and (for append) a scalar"""
+    parts, start = [], sp.Integer(0)
+    for p in pieces:
+        if isinstance(p, (list, tuple)):
+            if not all(symx._is_expr(x) and _vec_len(sp.sympify(x)) is None for x in p):
+                return None
+            seq = [sp.sympify(x) for x in p]
+            src, n = (lambda d, f, seq=seq: seq[int(d)] if sp.sympify(d).is_Integer and 0 <= int(d) < len(seq) else _undecided("element %s of a sequence" % d)), sp.Integer(len(seq))
+        else:
+            src, n = SV.source(p)
+            if n is None:
+                if not (isinstance(p, sp.Basic) and symx._is_expr(p)):
+                    return None
+                n = sp.Integer(1)
+        parts.append((start, sp.expand(start + n), src))
+        start = sp.expand(start + n)
+
+    def base(j, f):
+        for a, b, src in parts:
+            lo, hi = _facts_sgn(j - a, f), _facts_sgn(b - 1 - j, f)
+            if lo == 1 and hi == 1:
+                return src(sp.expand(j - a), f)
+            if lo == -1 or hi == -1:
+                continue
+            raise Undecided("which piece of the concatenation holds element %s" % (j,))
+        raise Undecided("element %s lies behind the concatenation" % (j,))
+    return SV(start, base=base)
+
+
+def _undecided(msg):
+    raise Undecided(msg)
 
 
 class RevObj:
@@ -405,6 +653,7 @@ class State:
         self.snaps = {}          # direct form: symbol -> frozen vector it stands for (a vector with element stores, by content)
         self._snapkeys = {}
         self.bincounts = []      # direct form: the countings of bin numbers found
+        self.vfacts = None       # not None: vectors with explicit element positions are followed (SV); what is known about their extents
 
     def snapshot(self, dv):
         """the symbol that stands for the present content of a vector over the bins (equal content, equal symbol)"""
@@ -423,7 +672,7 @@ def _taint(v, seen=None):
     seen.add(id(v))
     if isinstance(v, Vec):
         v.buf.tainted = True
-    elif isinstance(v, (Arr, RevObj, DV)):
+    elif isinstance(v, (Arr, RevObj, DV, SV)):
         v.tainted = True
     elif isinstance(v, dict):
         if isinstance(v, SelfDict):
@@ -542,8 +791,15 @@ class BEnv(symx.Env):
     def assign(self, t, v, st):
         if isinstance(t, ast.Subscript):
             base = self.ev(t.value)
-            if isinstance(base, (Arr, Vec, RevObj, SelfDict, DV)):
+            if isinstance(base, (Arr, Vec, RevObj, SelfDict, DV, SV)):
                 base.store(self.ev_index(t.slice), v, self.cur, self)
+                return
+            if self.bs.vfacts is not None and isinstance(base, sp.Basic) and _vec_len(base) is not None and isinstance(t.value, ast.Name) \
+                    and self.ev_index(t.slice) != slice(None):
+                # a store into part of a vector that was a whole-vector term so far: from here on it has explicit positions
+                sv = SV.from_term(base, _vec_len(base))
+                self.vars[t.value.id] = sv
+                sv.store(self.ev_index(t.slice), v, self.cur, self)
                 return
         symx.Env.assign(self, t, v, st)
 
@@ -553,6 +809,8 @@ class BEnv(symx.Env):
         if isinstance(b, Vec):
             return b.length()
         if isinstance(b, Arr):
+            return b.n
+        if isinstance(b, SV):
             return b.n
         if isinstance(b, DV):
             return b.n if b.sel is None else None
@@ -582,6 +840,25 @@ class BEnv(symx.Env):
             return base.read(idx, self.cur)
         if isinstance(base, Vec):
             return base.get(idx)
+        if isinstance(base, SV):
+            if isinstance(idx, slice):
+                return base.view(idx)
+            if symx._is_expr(idx):
+                try:
+                    return base.at(idx, self.bs.vfacts)
+                except Undecided as ex:
+                    return symx.Opaque(str(ex))
+            return symx.Opaque("elements of a vector")
+        if self.bs.vfacts is not None and isinstance(idx, slice) and idx.step is None and idx != slice(None) and isinstance(base, sp.Basic) \
+                and _vec_len(base) is not None:
+            # part of a vector given element by element (built from np.arange(n)): the elements at the selected positions
+            return SV.from_term(base, _vec_len(base)).view(idx)
+        if self.bs.vfacts is not None and symx._is_expr(idx) and isinstance(base, sp.Basic) and _vec_len(base) is not None \
+                and not sp.sympify(idx).has(ARANGE):
+            # one element of such a vector: the term at that position
+            n = _vec_len(base)
+            j = _nidx(sp.sympify(idx))
+            return base.subs(ARANGE(n), (n + j) if (j.is_number and j.is_negative) else j)
         if isinstance(base, sp.Basic) and isinstance(idx, sp.Basic):
             mm = self.bs.member_map
             if base in mm:
@@ -598,7 +875,18 @@ class BEnv(symx.Env):
                     return base.subs(MEMBERS, FIRST if idx == 0 else LAST)
         return symx.Env.subscript(self, base, idx, e)
 
+    def _sv_binop(self, op, a, b, node):
+        (fa, na), (fb, nb) = SV.source(a), SV.source(b)
+        if na is not None and nb is not None and not _eq(na, nb):
+            return symx.Opaque("vectors of different extent")
+        for x, nx in ((a, na), (b, nb)):
+            if nx is None and not (symx._is_expr(x) and not sp.sympify(x).has(ARANGE)):
+                return symx.Opaque("vector arithmetic")
+        return SV(na if na is not None else nb, base=lambda j, f: symx.Env.binop(self, op, fa(j, f), fb(j, f), node))
+
     def binop(self, op, a, b, node):
+        if isinstance(a, SV) or isinstance(b, SV):
+            return self._sv_binop(op, a, b, node)
         if isinstance(a, Arr) and symx._is_expr(b):
             return a.map(lambda x: symx.Env.binop(self, op, x, b, node))
         if isinstance(b, Arr) and symx._is_expr(a):
@@ -639,6 +927,37 @@ class BEnv(symx.Env):
                        "its members (data the histogram did not count)" % full.replace("numpy.", "np."))
         return r
 
+    def _sv_call(self, c, nm):
+        """numpy constructors of vectors with explicit positions: *_like of a vector, delete of one position, append / concatenate"""
+        def isvec(v):
+            return isinstance(v, SV) or (isinstance(v, sp.Basic) and _vec_len(v) is not None)
+        if nm in ("empty_like", "zeros_like", "ones_like", "full_like") and c.args:
+            x = self.ev(c.args[0])
+            if isvec(x):
+                if nm == "full_like":
+                    fv = c.args[1] if len(c.args) > 1 else kwarg(c, "fill_value")
+                    init = self.ev(fv) if fv is not None else None
+                else:
+                    init = {"zeros_like": sp.Integer(0), "ones_like": sp.Integer(1), "empty_like": UNINIT}[nm]
+                if symx._is_expr(init) and not sp.sympify(init).has(ARANGE):
+                    return SV.const(x.n if isinstance(x, SV) else _vec_len(x), sp.sympify(init))
+            return None
+        if nm == "delete" and len(c.args) == 2 and not c.keywords:
+            x, i = self.ev(c.args[0]), self.ev(c.args[1])
+            if isinstance(x, SV) and symx._is_expr(i) and not sp.sympify(i).has(ARANGE):
+                return _sv_delete(x, i)
+            return None
+        if nm == "append" and len(c.args) == 2 and not c.keywords:
+            x, v = self.ev(c.args[0]), self.ev(c.args[1])
+            if isvec(x):
+                return _sv_concat([x, v]) or symx.Opaque("numpy.append")
+            return None
+        if nm in ("concatenate", "hstack") and len(c.args) == 1 and not c.keywords and isinstance(c.args[0], (ast.Tuple, ast.List)):
+            ps = [self.ev(e) for e in c.args[0].elts]
+            if any(isvec(p) for p in ps) and all(isvec(p) or isinstance(p, (list, tuple)) for p in ps):
+                return _sv_concat(ps) or symx.Opaque("numpy." + nm)
+        return None
+
     def call(self, c, stmt_level=False):
         f = c.func
         nm = call_name(c)
@@ -659,6 +978,10 @@ class BEnv(symx.Env):
             n = self._count(self.ev(c.args[0]))
             if n is not None:
                 return n
+        if self.bs.vfacts is not None and full.startswith("numpy."):
+            r = self._sv_call(c, nm)
+            if r is not None:
+                return r
         if full == "numpy.append" and len(c.args) == 2 and not c.keywords:
             a, v = self.ev(c.args[0]), self.ev(c.args[1])
             if isinstance(a, sp.Basic) and a.has(AREA) and symx._is_expr(v) and not sp.sympify(v).has(AREA):
@@ -671,8 +994,10 @@ class BEnv(symx.Env):
             if nm == "append" and isinstance(recv, list) and len(c.args) == 1:
                 recv.append(self.ev(c.args[0]))
                 return None
-            if nm == "copy" and isinstance(recv, (Arr, Vec, DV)):
+            if nm == "copy" and isinstance(recv, (Arr, Vec, DV, SV)):
                 return recv.copy()
+            if isinstance(recv, SV) and nm not in ("copy", "astype", "sum", "min", "max", "mean", "tolist", "view", "ravel", "flatten", "squeeze"):
+                recv.tainted = "the method %s() is called on the vector" % nm
             if nm == "fill" and isinstance(recv, Arr) and len(c.args) == 1:
                 recv.store(slice(None), self.ev(c.args[0]), self.cur, self)
                 return None
@@ -1147,10 +1472,11 @@ class Run:
         self.error = None
 
 
-def _execute(repo, fi, sd, extra_vars, member_map=None, intercept=None, envcls=None, scen=None):
+def _execute(repo, fi, sd, extra_vars, member_map=None, intercept=None, envcls=None, scen=None, vfacts=None):
     r = Run()
     se = _new_eval(repo, member_map, intercept)
     se.bs.scen = scen
+    se.bs.vfacts = vfacts
     env = (envcls or BEnv)(se, fi, fi.module, {}, {})
     env.vars.update({"self": sd, "self.x": XALL, "self.y": YALL, "self.weights": WALL, "self.sort_index": SORTIDX,
                      "self.dmin": DMIN, "self.dmax": DMAX, "self.xpref": XP})
@@ -1253,7 +1579,7 @@ def calc_stats_runs(repo, fi):
             extra["self.y"] = None
         if not hasw:
             extra["self.weights"] = None
-        runs[(hasy, hasw, npb)] = _execute(repo, fi, sd, extra, member_map={XALL: X, YALL: Y, WALL: W})
+        runs[(hasy, hasw, npb)] = _execute(repo, fi, sd, extra, member_map={XALL: X, YALL: Y, WALL: W}, vfacts=[])
     return runs
 
 
@@ -1472,12 +1798,51 @@ def _logged(run, key):
     return [v for k, v, _ in run.sd.log if k == key]
 
 
+def _arr_as_sv(a):
+    """an array allocated for all bins, with the stores made into it, as a vector with explicit positions"""
+    if a.tainted:
+        raise Undecided("statements outside the term domain touch the array")
+    if a.n is None or not isinstance(a.init, sp.Basic) or a.init.has(sp.Piecewise) or a.open_last:
+        raise Undecided("array of unknown extent / content")
+    sv = SV.const(a.n, a.init)
+
+    class _E:
+        class bs:
+            vfacts = []
+    for c, i, v in a.raw:
+        sv.store(i, v, c, _E)
+    return sv
+
+
+def _edge_positions(got, ref, idx):
+    """a bin edge vector with explicit positions against its definition, at the first bin, a bin in the middle and the last bin:
+    (True / False / None, text)"""
+    n = idx.args[0]
+    try:
+        sv = _arr_as_sv(got) if isinstance(got, Arr) else got
+        if not _eq(sv.n, n):
+            return False, "%s elements for %s bins" % (sv.n, n)
+        out = []
+        for name, pos, facts in (("first bin", sp.Integer(0), [(n, GAPV + 2)]), ("a bin in the middle", KH + 1, [(n, KH + 3 + GAPV)]),
+                                 ("last bin", n - 1, [(n, GAPV + 2)])):
+            v = sv.at(pos, facts)
+            if not isinstance(v, sp.Basic) or isinstance(v, symx.Opaque):
+                return None, "%s: value not followed (%r)" % (name, v)
+            v = _at_norm(v)
+            want = ref.subs(idx, pos)
+            if not _same_term(sp.expand(v), sp.expand(want)):
+                out.append("in the %s it is %s, expected %s" % (name, v, want))
+        return (not out), "; ".join(out)
+    except Undecided as e:
+        return None, "not decided: %s" % e
+
+
 def edges(chk, fi, runs):
     where = fi.where()
     idx = ARANGE(SIZE(HIST))
     ref = {"low": DMIN + idx * BINSIZE, "high": DMIN + idx * BINSIZE + BINSIZE, "center": DMIN + idx * BINSIZE + BINSIZE / 2}
     for q, r_ in ref.items():
-        res, got = [], None
+        res, got, msg = [], None, ""
         for cfg, r in runs.items():
             if cfg[2]:
                 continue
@@ -1489,8 +1854,13 @@ def edges(chk, fi, runs):
                 res.append(None)
                 continue
             got = vals[-1]
+            if isinstance(got, (SV, Arr)):
+                ok, m = _edge_positions(got, r_, idx)
+                res.append(ok)
+                msg = msg or m
+                continue
             res.append(bool(symx._is_expr(got) and _same_term(sp.sympify(got), r_)) if not isinstance(got, symx.Opaque) else None)
-        chk.ob("R14.3", "calc_stats::%s" % q, _verdict(res), where, "bin %s is %s (found %s)" % (q, r_, got))
+        chk.ob("R14.3", "calc_stats::%s" % q, _verdict(res), where, "bin %s is %s (found %s)" % (q, r_, msg or got))
     r = runs[(True, True, True)]
     if r.error or r.sd.tainted:
         ok = None
@@ -1552,6 +1922,10 @@ def _hist_by_num_run(repo, fi, mergelast):
     return _execute(repo, fi, sd, {"nperbin": NPB, "mergelast": mergelast}, intercept={"_do_hist": do_hist, "_merge_last": merge_last})
 
 
+_MERGED_REV_TEXT = ("the merge leaves the reverse indices in the engine's layout for one bin fewer (REV: before the merge, nbin = SIZE(HIST) bins): one element "
+                    "fewer, offsets REV[k]-1, last offset REV[nbin]-1, index area unchanged one place earlier")
+
+
 def _merge_last_rules(chk, repo, where, called=True):
     """the two rules about the merge of a short last bin, decided on the method that does it"""
     n = SIZE(WSORT)
@@ -1561,11 +1935,16 @@ def _merge_last_rules(chk, repo, where, called=True):
         chk.ob("R14.5", "_merge_last::merged-bin-count-and-limits", None, where,
                "merged bin: one bin fewer, counts added, low from the predecessor, high from the last bin (%s)" % why)
         chk.ob("R14.5", "_merge_last::needs-two-bins", None, where, "nothing is merged when there is only one bin, and two are enough (%s)" % why)
+        chk.ob("R14.5", "_merge_last::reverse-indices-after-merge", None, where, "%s -- %s" % (why, _MERGED_REV_TEXT))
         return
     ml = repo.func(ST + "Binner._merge_last")
     chk.analysed_unit(ml.qualname)
-    sd = SelfDict({"hist": Vec(HIST), "low": Vec(LOW, n=SIZE(HIST)), "high": Vec(HIGH, n=SIZE(HIST)), "rev": Vec(REV)})     # one low / high per bin
-    rm = _execute(repo, ml, sd, {})
+    # the reverse indices before the merge: SIZE(HIST) + 1 offsets, then the index area with at least one datum
+    nb, nr = SIZE(HIST), SIZE(REV)
+    layout = [(nr, nb + 1 + ND)]
+    rev0 = SV(nr, base=lambda j, f: AT(REV, sp.expand(j)))
+    sd = SelfDict({"hist": Vec(HIST), "low": Vec(LOW, n=SIZE(HIST)), "high": Vec(HIGH, n=SIZE(HIST)), "rev": rev0})     # one low / high per bin
+    rm = _execute(repo, ml, sd, {}, vfacts=layout + [(nb, GAPV + 2)])
     res, msg = [], ""
     want = {"hist": (HIST, AT(HIST, -2) + AT(HIST, -1)), "low": (LOW, AT(LOW, -2)), "high": (HIGH, AT(HIGH, -1))}
     for q, (sym, w) in want.items():
@@ -1592,6 +1971,30 @@ def _merge_last_rules(chk, repo, where, called=True):
             msg = "new %s drops %d element(s) and ends with %s, expected one and %s" % (q, v.drop, lastv, w)
     chk.ob("R14.5", "_merge_last::merged-bin-count-and-limits", _verdict(res), ml.where(),
            "merged bin: one bin fewer, counts added, low from the predecessor, high from the last bin (%s)" % (msg or "as found"))
+    # the reverse indices the merge leaves, position by position, against the layout for one bin fewer
+    ok, msg = None, ""
+    rv = rm.sd.get("rev")
+    if rm.error or rm.sd.tainted or not _logged(rm, "rev") or not isinstance(rv, SV):
+        msg = (rm.error or "the new reverse indices are not a vector the analysis followed (%r) %s" % (rv, rm.bs.skipped[:2]))[:200]
+    else:
+        try:
+            bad = []
+            if not _eq(rv.n, nr - 1):
+                bad.append("they have %s elements, expected %s" % (rv.n, nr - 1))
+            else:
+                for name, pos, want, facts in (
+                        ("the offset of bin k", KH, AT(REV, KH) - 1, layout + [(nb, KH + 2 + GAPV)]),
+                        ("the offset behind the merged last bin, element nbin-1,", nb - 1, AT(REV, nb) - 1, layout + [(nb, GAPV + 2)]),
+                        ("position p of the index area, element nbin+p,", nb + PA, AT(REV, nb + PA + 1), layout + [(ND, PA + 1 + GAPW), (nb, GAPV + 2)])):
+                    got = rv.at(pos, facts)
+                    if not isinstance(got, sp.Basic):
+                        raise Undecided("%s: value not followed (%r)" % (name, got))
+                    if not _eq(got, want):
+                        bad.append("%s holds %s, expected %s" % (name, got, want))
+            ok, msg = (not bad), "; ".join(bad)
+        except Undecided as e:
+            msg = "not decided: %s" % e
+    chk.ob("R14.5", "_merge_last::reverse-indices-after-merge", ok, ml.where(), "%s%s" % ((msg + " -- ") if msg else "", _MERGED_REV_TEXT))
     res, msg = [], ""
     if rm.error or rm.sd.tainted or not rm.sd.log:
         res.append(None)
